@@ -83,7 +83,11 @@ func runC12(c *Ctx) {
 	}
 	backends := []string{"os", "osalloc", "req", "reqalloc"}
 	for s := 0; s < nseq; s++ {
-		c12Sequence(c, s, backends[s%len(backends)], dir)
+		c12Sequence(c, s, backends[s%len(backends)], dir, false)
+	}
+	// (b'') as many sequences again on the request server over a backend that fails at seeded request offsets
+	for s := nseq; s < 2*nseq; s++ {
+		c12Sequence(c, s, backends[2+s%2], dir, true)
 	}
 	// (c)+(d) closed state and Close races against the scripted peer (it logs what arrives after CLOSE)
 	nrace := 60
@@ -105,9 +109,12 @@ func runC12(c *Ctx) {
 	}
 }
 
-func c12Sequence(c *Ctx, s int, backend, dir string) {
+func c12Sequence(c *Ctx, s int, backend, dir string, failing bool) {
 	pk := []int{1, 2, 3, 7, 32768}[c.Rng.Intn(5)]
 	optsConc, optsCR, optsCW, optsFS := 1+c.Rng.Intn(3), c.Rng.Intn(2) == 0, c.Rng.Intn(2) == 0, c.Rng.Intn(2) == 0
+	if failing {
+		optsCW = false
+	}
 	opts := []sftp.ClientOption{sftp.MaxPacketUnchecked(pk), sftp.MaxConcurrentRequestsPerFile(optsConc), sftp.UseConcurrentReads(optsCR),
 		sftp.UseConcurrentWrites(optsCW), sftp.UseFstat(optsFS)}
 	initial := patternBytes(0, c.Rng.Intn(3*pk+2)%40)
@@ -118,6 +125,8 @@ func c12Sequence(c *Ctx, s int, backend, dir string) {
 	defer os.Remove(localName)
 	var cl *sftp.Client
 	var pr *pair
+	var rplan, wplan map[uint64]uint32
+	var mf *memFile
 	remote := "/f"
 	var err error
 	switch backend {
@@ -128,7 +137,23 @@ func c12Sequence(c *Ctx, s int, backend, dir string) {
 		pr, err = newPair(pairOpt{alloc: backend == "osalloc", clientOpts: opts})
 	default:
 		fs := newMemFS()
-		fs.get("/f", true).data = append([]byte(nil), initial...)
+		mf = fs.get("/f", true)
+		mf.data = append([]byte(nil), initial...)
+		// a third of the request-server sequences run over a backend whose ReadAt / WriteAt fails at seeded request offsets
+		// (sequential writes only: with concurrent writes the chunks beyond a failing one may or may not be sent). The os.File
+		// cannot follow those; the model of Xfer/FileOps.v can (kind fseqm carries the plan).
+		if !optsCW && (failing || c.Rng.Intn(3) == 0) {
+			rplan, wplan = map[uint64]uint32{}, map[uint64]uint32{}
+			for j, nf := 0, 1+c.Rng.Intn(3); j < nf; j++ {
+				pl := wplan
+				if c.Rng.Intn(3) == 0 {
+					pl = rplan
+				}
+				pl[uint64(c.Rng.Intn(40))] = []uint32{4, 2, 3}[c.Rng.Intn(3)]
+			}
+			mf.rfail, mf.wfail = rplan, wplan
+			c.Stat("fseqm_sequences_over_a_failing_backend")
+		}
 		pr, err = newPair(pairOpt{reqServer: true, handlers: fs.handlers(), alloc: backend == "reqalloc", clientOpts: opts})
 	}
 	if err != nil {
@@ -244,7 +269,9 @@ func c12Sequence(c *Ctx, s int, backend, dir string) {
 			c.NT(n)
 		}
 		ok, why := true, ""
-		if ro != lo {
+		if len(rplan)+len(wplan) > 0 {
+			// no os.File to compare with: the model decides (kind fseqm below)
+		} else if ro != lo {
 			ok, why = false, fmt.Sprintf("after %s the File offset is %d, the os.File offset %d", op, ro, lo)
 		} else if rn != ln2 || (rerr == nil) != (lerr == nil) {
 			ok, why = false, fmt.Sprintf("%s: File -> (%d,%v), os.File -> (%d,%v)", op, rn, rerr, ln2, lerr)
@@ -259,7 +286,9 @@ func c12Sequence(c *Ctx, s int, backend, dir string) {
 	// the same sequence on the model: per step count, error?, offset afterwards, data; and the final content of the file
 	var final []byte
 	var ferr error
-	if g, e := cl.Open(remote); e == nil {
+	if mf != nil {
+		final = mf.bytes()
+	} else if g, e := cl.Open(remote); e == nil {
 		final, ferr = io.ReadAll(g)
 		g.Close()
 	} else {
@@ -267,7 +296,7 @@ func c12Sequence(c *Ctx, s int, backend, dir string) {
 	}
 	if mok && ferr == nil {
 		cr, cw, ufs := optsCR, optsCW, optsFS
-		n := c.Case("fseqm", kvi("seq", s), kvi("p", pk), kvi("conc", optsConc), kvb("cr", cr), kvb("cw", cw), kvb("fstat", ufs), kvx("maxtx", 32768), kvs("be", backend),
+		n := c.Case("fseqm", kvi("seq", s), kvi("p", pk), kvi("conc", optsConc), kvb("cr", cr), kvb("cw", cw), kvb("fstat", ufs), kvx("maxtx", 32768), kvs("be", backend), kvs("rfail", planStr(rplan)), kvs("wfail", planStr(wplan)),
 			"init="+hexs(initial), "ops="+strings.Join(append([]string{}, mops...), ","))
 		if len(mops) == 0 {
 			c.Obs(n, "res=-", "final="+hexs(final))
